@@ -9,7 +9,9 @@ CHECKS = {
         text="TLC exhaustively checks that the transcribed MutableNodeRefList algorithm (NodeListImpl.tla) refines the abstract "
              "node-set contract (NodeList.tla) for all bounded operation histories over two documents (indexed, unindexed, mixed); "
              "one shortest history per transition of that state graph is replayed on the real class over native, Xerces-built and "
-             "Xerces-lazy trees and every recorded step is validated by TLC against the abstract contract.",
+             "Xerces-lazy trees and every recorded step is validated by TLC against the abstract contract. Namespace nodes: from every element of "
+             "documents with 1-4 declarations per element the namespace axis, its unions with itself / single nodes / attributes / children / self / "
+             "parent and filtered subsets must all be delivered in the ONE order the axis shows (Trace_C12ns).",
         note="Trusted: TLC, the harness projection of nodes to (document, index), Python glue for sharding/classification. "
              "isNodeAfter is modelled as index comparison inside NodeListImpl.",
         technique="TLA+ refinement check (TLC) + per-transition behaviour replay + TLC trace validation"),
@@ -96,9 +98,13 @@ CHECKS["C01"] = dict(
          "apply-templates/for-each with sort and with-param, call-template, variables incl. result tree fragments, literal result elements with AVTs, "
          "xsl:element/attribute/comment/processing-instruction, if/choose, copy, copy-of) on top of XPathSem, TemplateRules and Sort. Seeded stylesheets nesting these "
          "to depth 3 are run by the real processor, the result tree is recorded from the FormatterListener events before any serializer, and TLC recomputes "
-         "Transform(stylesheet, document) and compares canonical trees.",
-    note="Trusted: TLC, stylesheet renderer, result-tree recorder and its canonicalisation. Not in XSLTSem v1: namespaces in result names (C14), xsl:number (C17), keys (C15), "
-         "imports (C10), document(), format-number, output escaping control. Cases whose definition value leaves the number model or is a dynamic error are not judged.",
+         "Transform(stylesheet, document) and compares canonical trees. XSLTSem also has import precedence / apply-imports, attribute sets, keys, strip-space, "
+         "xsl:number and document(). Dedicated families: scoping, sorting, imports, attribute sets, multi-document, strip / copy; attribute value templates "
+         "(AvtSyntax, every string <= 5/7 over a 5-character alphabet), format-number (FormatNumber), the namespace NODES of the result (ResultTree!NsNodeFaults), "
+         "the stylesheet's own text nodes (StylesheetTree, every content sequence <= 4/5). VariablesStackImpl (the engine's variable stack) is model-checked against "
+         "XSLT 11 scoping under every program within bounds and bound to the code by hook H2: every recorded stack operation must be the model's.",
+    note="Trusted: TLC, stylesheet renderer, result-tree recorder and its canonicalisation. Result NAMES with namespaces are C14's; output escaping control is C04's. "
+         "Cases whose definition value leaves the number model or is a dynamic error are not judged.",
     technique="TLA+ executable semantics of XSLT evaluated by TLC; trace validation of recorded result trees")
 
 CHECKS["C07"] = dict(
